@@ -240,6 +240,21 @@ class _Gen:
         self.anc.append(an)
         return len(self.values) - 1
 
+    def twin_sum(self, positions) -> bool:
+        """First node a + b of two same-shaped leaves requiring grad (weight = base + delta): autograd hands ONE gradient tensor
+        object to both of them."""
+        by_shape = {}
+        for i in positions:
+            if self.deps[i]:
+                by_shape.setdefault(tuple(self.values[i].shape), []).append(i)
+        pairs = [v for v in by_shape.values() if len(v) >= 2]
+        if not pairs:
+            return False
+        v = pairs[int(self.rng.integers(len(pairs)))]
+        i, j = (int(x) for x in self.rng.choice(v, size=2, replace=False))
+        self._push({"op": "add", "args": [i, j]}, self.values[i] + self.values[j])
+        return True
+
     def step(self, prefer_rg=True) -> bool:
         rng = self.rng
         ids = self.tensor_ids()
@@ -310,6 +325,9 @@ class _Gen:
 def _rand_leaf_descs(rng, n, p_rg=0.85):
     descs = [{"shape": list(LEAF_SHAPES[rng.integers(len(LEAF_SHAPES))]), "rg": bool(rng.random() < p_rg)}
              for _ in range(n)]
+    for k in range(1, n):
+        if rng.random() < 0.25:
+            descs[k]["shape"] = list(descs[int(rng.integers(k))]["shape"])  # same-shaped leaves (twin sums a + b become possible)
     for d in descs:
         if len(d["shape"]) >= 2 and sum(1 for x in d["shape"] if x > 1) >= 2 and rng.random() < 0.25:
             d["nc"] = True
@@ -335,6 +353,8 @@ def gen_program(rng, dtype="float64", n_leaves=None, n_nodes=None, n_outputs=Non
         g = _Gen(rng, tdt, list(leaves), deps, [frozenset() for _ in range(nl)], smooth=smooth, linear=linear)
         target = int(n_nodes or rng.integers(1, 9))
         tries = 0
+        if rng.random() < 0.3:
+            g.twin_sum(range(nl))
         while len(g.nodes) < target and tries < 40:
             tries += 1
             g.step()
@@ -466,6 +486,9 @@ def gen_mtl_program(rng, dtype="float64", n_heads=None, n_features=None, allow_a
             npool = int(rng.integers(0, 2 * nh + 1))
             pool = [{"shape": list(LEAF_SHAPES[rng.integers(len(LEAF_SHAPES))]), "rg": bool(rng.random() < 0.9)}
                     for _ in range(npool)]
+            for k in range(1, npool):
+                if rng.random() < 0.35:
+                    pool[k]["shape"] = list(pool[int(rng.integers(k))]["shape"])
         pl = make_leaves(pool, vseed, tdt, tag=1)
         heads = []
         ok = True
@@ -503,6 +526,8 @@ def gen_mtl_program(rng, dtype="float64", n_heads=None, n_features=None, allow_a
             hg = _Gen(rng, tdt, list(base_vals), list(base_deps), [frozenset() for _ in base_vals], linear=linear)
             tgt = int(rng.integers(1, 6))
             tries = 0
+            if rng.random() < 0.5:
+                hg.twin_sum(range(len(hf), len(hf) + len(hl)))  # head weight = sum of two task-specific parameters
             while len(hg.nodes) < tgt and tries < 30:
                 tries += 1
                 hg.step()
